@@ -273,12 +273,13 @@ class BehavioralRTLIRTypeCheckVisitorL2( BehavioralRTLIRTypeCheckVisitorL1 ):
 
       # Both sides are implicit
       elif is_lhs_inferred and is_rhs_inferred:
+        # The narrower side takes the width of the wider one
         if lhs_nbits >= rhs_nbits:
           target_nbits = lhs_nbits
-          op = node.body
+          op = node.orelse
         else:
           target_nbits = rhs_nbits
-          op = node.orelse
+          op = node.body
         context = rt.NetWire(rdt.Vector(target_nbits))
         s.enforcer.enter( s.blk, context, op )
 
